@@ -4,7 +4,7 @@ from ..trace import TraceWriter
 
 ASSUMPTIONS = [
     "leg A: IEEE arithmetic; experiments exactly on an Arrhenius line, 1..3 of 4 temperatures in every insertion order, 4 activation energies, stated or not, 9 query temperatures",
-    "leg B: random experiment sets of 1..6 per component (>= 1 K apart, any order, interleaved), on or off an Arrhenius line, stated/unstated/mixed; no ties between nearest experiments (by construction)",
+    "leg B: membranes built from IdealExperiment objects or (built-in components) through the public IdealExperiments.from_csv loader, with the activation-energy cell left blank where none is stated; random experiment sets of 1..6 per component (>= 1 K apart, any order, interleaved), on or off an Arrhenius line, stated/unstated/mixed; no ties between nearest experiments (by construction)",
     "tolerances: 1e-9 for the Arrhenius relation, 1e-7 for relations through the regression (conditioning of nearly equal temperatures)",
 ]
 CLAUSES = {
@@ -38,7 +38,12 @@ def leg_a(ctx):
 def run(ctx, pool):
     tw = TraceWriter()
     stats = {"nontrivial": set()}
-    rec_membrane.record(tw, ctx.rng, ctx.n(500, 25000), stats)
+    import os
+    import shutil
+    scratch = os.path.join(ctx.work, "csv")
+    os.makedirs(scratch, exist_ok=True)
+    rec_membrane.record(tw, ctx.rng, ctx.n(500, 25000), stats, scratch=scratch)      # 24 % of the membranes go through from_csv
+    shutil.rmtree(scratch, ignore_errors=True)
     res = core.validate_traces(None, ctx, tw, pool, "Trace_Membrane.tla", "Trace_Membrane.cfg")
     hist = core.event_histogram(tw)
     res["coverage"] = {
